@@ -220,11 +220,46 @@ func VerifC08_Optimal() {
 		return
 	}
 	ps := verifPairs(aln)
-	got := 0
+	reported := 0
 	for _, p := range ps {
-		got += p.score
+		reported += p.score
 	}
 	sc := verifScoreTables(ri, qi, flat, k+1)
+	// the score the returned alignment really has, recomputed from its geometry: optimality is
+	// about this number, not about what the aligner says the score is
+	got, wellFormed := 0, true
+	for _, p := range ps {
+		la, lb := p.a1-p.a0, p.b1-p.b0
+		if la < 0 || lb < 0 || p.a0 < 0 || p.a1 > n || p.b0 < 0 || p.b1 > m || (la != lb && la != 0 && lb != 0) {
+			wellFormed = false
+			break
+		}
+		switch {
+		case la == lb:
+			for t := 0; t < la; t++ {
+				got += sc.sub[p.a0+t][p.b0+t]
+			}
+		case lb == 0:
+			if affine {
+				got += open
+			}
+			for t := 0; t < la; t++ {
+				got += sc.gr[p.a0+t]
+			}
+		default:
+			if affine {
+				got += open
+			}
+			for t := 0; t < lb; t++ {
+				got += sc.gq[p.b0+t]
+			}
+		}
+	}
+	verifAssert(wellFormed, "returned-description-is-an-alignment")
+	if !wellFormed {
+		return
+	}
+	verifAssert(reported == got, "reported-total-is-the-score-of-the-returned-alignment")
 	var comps, adjComps, endGapComps []int
 	fitted := which%3 == 2
 	enum := func(i, j, i1, j1 int) {
